@@ -79,6 +79,39 @@ def macro_program(rnd, call, site):
     raise ValueError(site)
 
 
+def macrolet_scope_programs():
+    """a local macro is a closure of the scope that encloses the macrolet form: its BODY (run at expansion time) reads
+    the parameters, let variables, local functions and outer local macros around it, next to a global of the same name;
+    called directly, through macroexpand / macroexpand-1, and compared with a defmacro at the same place"""
+    PR = lambda tag, e: [S("probe"), Q(S(tag)), [S("handler-bind"), [[S("condition"), [S("lambda"), [S("c"), S("&rest"), S("r")], [S("probe"), Q(S("err")), S("c")], Q(S("e"))]]], e]]
+    G = [[S("set"), Q(S("n")), 100], [S("set"), Q(S("k")), 200], [S("defun"), S("h"), [S("a")], [S("+"), S("a"), 1000]]]
+    addn = [S("addn"), [S("x")], QQ([S("+"), UQ(S("x")), UQ(S("n"))])]
+    addn_l = [S("addn"), [S("x")], [S("list"), Q(S("+")), S("x"), S("n")]]
+    out = []
+    for mac in (addn, addn_l):
+        out.append(G + [[S("defun"), S("f"), [S("n")], [S("macrolet"), [mac], PR("call", [S("addn"), 1]), PR("mx", [S("macroexpand"), Q([S("addn"), 1])]),
+                                                      PR("mx1", [S("macroexpand-1"), Q([S("addn"), 1])]), PR("ev", [S("eval"), [S("macroexpand"), Q([S("addn"), 1])]])]],
+                        [S("f"), 5], [S("f"), 6]])
+        out.append(G + [[S("let"), [[S("n"), 7]], [S("macrolet"), [mac], PR("call", [S("addn"), 1]), [S("let"), [[S("n"), 8]], PR("inner", [S("addn"), S("n")])]]]])
+        out.append(G + [[S("let*"), [[S("k"), 1], [S("n"), [S("+"), S("k"), 1]]], [S("macrolet"), [mac], PR("call", [S("addn"), S("k")])]]])
+        out.append(G + [[S("funcall"), [S("lambda"), [S("n")], [S("macrolet"), [mac], PR("call", [S("addn"), 1])]], 9]])
+        out.append(G + [[S("dotimes"), [S("n"), 3], [S("macrolet"), [mac], PR("call", [S("addn"), 10])]]])
+        # a defmacro at the same place closes over the same scope
+        out.append(G + [[S("defun"), S("f2"), [S("n")], [S("defmacro")] + mac, 0], [S("f2"), 5], PR("call", [S("addn"), 1])])
+    # local functions and outer local macros used WHILE expanding
+    out.append(G + [[S("flet"), [[S("h"), [S("a")], [S("*"), S("a"), 3]]], [S("macrolet"), [[S("m"), [S("x")], [S("h"), S("x")]]], PR("call", [S("m"), 4])]]])
+    out.append(G + [[S("labels"), [[S("h"), [S("a")], [S("if"), [S("<="), S("a"), 0], 0, [S("+"), 2, [S("h"), [S("-"), S("a"), 1]]]]]], [S("macrolet"), [[S("m"), [S("x")], [S("h"), S("x")]]], PR("call", [S("m"), 4])]]])
+    out.append(G + [[S("macrolet"), [[S("twice"), [S("x")], [S("list"), Q(S("*")), 2, S("x")]]],
+                     [S("macrolet"), [[S("inner"), [S("y")], [S("list"), Q(S("+")), S("y"), [S("twice"), 10]]]], PR("call", [S("inner"), 1]), PR("mx", [S("macroexpand"), Q([S("inner"), 1])])]]])
+    out.append(G + [[S("macrolet"), [[S("twice"), [S("x")], [S("list"), Q(S("*")), 2, S("x")]]],
+                     [S("macrolet"), [[S("inner"), [S("y")], QQ([S("twice"), UQ(S("y"))])]], PR("call", [S("inner"), 4])]]])
+    # siblings of one macrolet do not see each other while expanding; a shadowing macrolet wins inside, not outside
+    out.append(G + [[S("macrolet"), [[S("a"), [], 1], [S("b"), [], [S("a")]]], PR("call", [S("b")])]])
+    out.append(G + [[S("macrolet"), [[S("m"), [], 1]], [S("macrolet"), [[S("m"), [], 2]], PR("in", [S("m")])], PR("out", [S("m")])]])
+    out.append(G + [[S("let"), [[S("n"), 3]], [S("macrolet"), [[S("cap"), [], [S("lambda"), [], S("n")]]], PR("call", [S("funcall"), [S("cap")]])]]])
+    return out
+
+
 # ---- quasiquote templates
 def templates(depth):
     leaves = [1, S("sym"), Q(S("qs")), UQ(S("x")), Q(UQ(S("x"))), []]
@@ -160,6 +193,7 @@ def _run(V, work, tier):
     # definitions produced by expansions are usable afterwards
     progs_.append(("macro", list(MACROS) + [[S("m-def"), S("made"), 11], [S("probe"), [S("made")]], [S("m-defmac"), S("made-mac")], [S("probe"), [S("made-mac"), 5]],
                                             [S("probe"), [S("macroexpand-1"), Q([S("made-mac"), 5])]]], None))
+    progs_ += [("scope", f, None) for f in macrolet_scope_programs()]
     ts = templates(2)
     if not thorough:
         multi = [t for t in ts if "('q', ('q'," in repr(t)]       # templates with two or more quote marks: always all of them
